@@ -60,7 +60,7 @@ def run_progs(c, tier, prop):
         if f["class"] == own:
             n_own += 1
             if n_own <= 3:
-                d = byk.get(f["def"], {})
+                d = byk.get(f["def"]) or byk.get(f["def"] // 10, {})
                 c.violation("definition %s via %s: %s" % (json.dumps(d.get("d")), f["cont"], f["msg"]), {"failure": f, "definition": d})
         else:
             lst = c.cov.setdefault("other_property_divergences", [])
